@@ -253,7 +253,8 @@ class Proxy:
                     self.listeners.pool[index],
                 )._port,
             )
-        if self.flags.port in ports:
+        # NOTE: flags.port is not in use when listening on a unix socket
+        if not self.flags.unix_socket_path and self.flags.port in ports:
             ports.remove(self.flags.port)
         self.flags.ports = list(ports)
         # Write ports to port file
